@@ -116,9 +116,7 @@ def check_case(case):
             date, sod, cls, clamped = expected(cm, kw, dkw, sign)
             classes += cls
             nq = M.Native(cm, q)
-            problems = nq.problems if int_class else [
-                pr for pr in nq.problems
-                if pr.split()[0] not in ("hour", "minute", "second")]
+            problems = nq.problems
             if problems:
                 fail = "fields_valid: mode %s %s %s %s -> %r: %s" % (
                     mode, M.fmt_kw(kw), route, dkw, nq.f, "; ".join(problems))
